@@ -281,6 +281,11 @@ bool File::setLastModified(const Date& t)
 
 ByteArray File::content()
 {
+	if(_file) // already open, possibly for writing: read through a separate handle, this one keeps its position
+	{
+		flush();
+		return File(_path).content();
+	}
 	_info.clear(); // the file may have changed since its size was cached
 	return firstBytes((int)size());
 }
@@ -294,10 +299,13 @@ bool File::put(const ByteArray& data)
 
 ByteArray File::firstBytes(int n)
 {
+	if(_file) // already open, possibly for writing: read through a separate handle, this one keeps its position
+	{
+		flush();
+		return File(_path).firstBytes(n);
+	}
 	ByteArray data(n);
-	if (_file)
-		seek(0); // already open: the first bytes are at the start, not at the current position
-	else if (!open(_path)) {
+	if (!open(_path)) {
 		data.clear();
 		return data;
 	}
